@@ -34,7 +34,7 @@ class Bidding:
         if len(args) != 2:
             raise AnalysisError(rule, self.qual, 'expected signature take_bid(self, bid)')
         self.bidp = args[1]
-        self.paths: List[Path] = self.summ.paths(CLS, 'take_bid')
+        self.paths: List[Path] = self.summ.paths(CLS, 'take_bid', allow_truncated=True)
         self.bids = self.f.members('Bid')
         self.players = self.f.members('Player')
         self.state_cls = self.repo.cls('BiddingPhaseState', rule)
@@ -245,6 +245,9 @@ class Bidding:
             v = ev3(fm, pe.truth)
             if v is not None and v != c.polarity:
                 return False
+        if p.truncated:
+            raise AnalysisError('paths', 'loop bound', f'`{ast.unparse(p.end[2])[:50]}` runs more often than the path summariser unrolls '
+                                                       'in a state the rule evaluates')
         return True
 
     def post(self, p: Path, role: str, pe: PartialEvaluator):
